@@ -92,7 +92,7 @@ Definition rebase (b : path) (op : fs_op) : fs_op :=
 Record config := {
   root : path;                    (* project root (resolved) *)
   tmp : path;                     (* the TemporaryDirectory the diff path would create *)
-  cwd : path;                     (* working directory of the process (ruff keeps its cache there) *)
+  cwd : path;                     (* working directory of the process (irrelevant since ruff runs with --no-cache) *)
   out_pkg : list str;             (* output_package.split(".") *)
   core_pkg : option (list str);   (* core_package.split(".") when given *)
   force : bool;
@@ -135,8 +135,8 @@ Definition core_str_inside_out (c : config) : bool := prefixb (path_str (out_dir
 Definition init_chain (rel : path) : list fs_op :=
   map (fun q => WriteIfAbsent (q ++ [s_init]) 0) (rev (prefixes rel)).
 
-Definition is_shared_core (c : config) : bool :=
-  (Nat.leb 1 (length (rel_core c))) && (Nat.leb (length (rel_core c)) 2).
+(* _is_shared_core: project_root in core_path.parents — any core strictly below the base *)
+Definition is_shared_core (c : config) : bool := Nat.leb 1 (length (rel_core c)).
 
 Definition core_ops : list fs_op :=
   [Mkdirs []]
@@ -185,12 +185,10 @@ Definition rel_effects (c : config) (diff : bool) (st : stage) : list fs_op :=
       if diff then [] else match core_pkg c with Some _ => [Write (o ++ [s_init]) 0] | None => [] end
   end.
 
-(* absolute operations: the relative ones rebased, plus ruff's cache directory in the cwd *)
+(* absolute operations: the relative ones rebased.  Post-processing (ruff, run with --no-cache) rewrites
+   listed files in place and creates nothing. *)
 Definition effects (c : config) (diff : bool) (st : stage) : list fs_op :=
-  match st with
-  | Post => [Mkdirs (cwd c ++ [s_ruff_cache])]
-  | _ => map (rebase (if diff then tmp c else root c)) (rel_effects c diff st)
-  end.
+  map (rebase (if diff then tmp c else root c)) (rel_effects c diff st).
 
 Definition stages (diff : bool) (p : bool) : list stage :=
   if diff then [Load; Parse; Setup; Exceptions; Core; Models; Endpoints; Client; Mocks]
@@ -210,11 +208,20 @@ Fixpoint before (fail_at : option stage) (l : list stage) : list stage :=
 Definition fails (fail_at : option stage) (l : list stage) : bool :=
   match fail_at with Some f => existsb (stage_eqb f) l | None => false end.
 
+(* generate(): `if not output_package: raise ValueError`, then every dotted component of output_package and
+   of core_package (when given) must satisfy str.isidentifier(), else ValueError — after loading and parsing,
+   before any path is computed.  (ASCII identifiers; components with '/', '.', '' are all rejected.) *)
+Definition valid_pkg (p : list str) : bool := negb (path_eqb p []) && forallb is_ident p.
+Definition valid_pkgs (c : config) : bool :=
+  valid_pkg (out_pkg c) && match core_pkg c with Some k => valid_pkg k | None => true end.
+Definition run_stages (c : config) (diff : bool) : list stage :=
+  if valid_pkgs c then stages diff (post c) else [Load; Parse].
+
 Definition plan_main (c : config) (diff : bool) (fail_at : option stage) : list (stage * fs_op) :=
-  flat_map (fun st => map (pair st) (effects c diff st)) (before fail_at (stages diff (post c))).
+  flat_map (fun st => map (pair st) (effects c diff st)) (before fail_at (run_stages c diff)).
 (* leaving the `with TemporaryDirectory()` block, normally or by exception *)
 Definition plan_final (c : config) (diff : bool) (fail_at : option stage) : list (stage * fs_op) :=
-  if diff && existsb (stage_eqb Setup) (before fail_at (stages diff (post c)))
+  if diff && existsb (stage_eqb Setup) (before fail_at (run_stages c diff))
   then [(Final, Rmtree (tmp c))] else [].
 
 Definition exec (s : fs) (pl : list (stage * fs_op)) : fs := fold_left (fun s so => apply_op s (snd so)) pl s.
@@ -245,7 +252,7 @@ Definition has_diff (c : config) (s : fs) : bool :=
   diff_dir s (out_dir c) (tmp c ++ rel_out c)
   || (negb (path_eqb (core_dir c) (out_dir c)) && diff_dir s (core_dir c) (tmp c ++ rel_core c)).
 
-Inductive outcome := Ok | DiffFound | Fail (st : stage).
+Inductive outcome := Ok | DiffFound | Fail (st : stage) | Invalid (* ValueError: invalid package name *).
 
 Definition diff_mode (c : config) (s : fs) : bool := negb (force c) && exists_b s (out_dir c).
 
@@ -257,8 +264,9 @@ Definition generate (c : config) (fail_at : option stage) (s : fs) : fs * outcom
   let s1 := exec s (plan_main c diff fail_at) in
   let s2 := exec s1 (plan_final c diff fail_at) in
   (s2,
-   if fails fail_at (stages diff (post c)) then
+   if fails fail_at (run_stages c diff) then
      match fail_at with Some f => Fail f | None => Ok end
+   else if negb (valid_pkgs c) then Invalid
    else if diff && has_diff c s1 then DiffFound else Ok).
 
 (* ---------- a failure INSIDE a stage: the OS refuses to create one file or directory ---------- *)
@@ -287,41 +295,34 @@ Definition io_cut (name : str) (s : fs) (op : fs_op) : option (list fs_op) :=
       end
   | Remove _ | Rmtree _ => None
   end.
-(* ModelsEmitter._generate_model_file wraps the write of <m>.tmp / rename in `except Exception`,
-   logs and returns None: the refusal is swallowed, that model module is simply missing and
-   generation goes on (the injection fires once, so the rest of the plan runs unchanged). *)
-Definition swallows (st : stage) (op : fs_op) : bool :=
-  stage_eqb st Models && match op with Write p _ => suffixb s_dot_tmp (last p []) | _ => false end.
-Record io_result := { io_ops : list (stage * fs_op); io_hit : option stage; io_swallowed : bool }.
+(* (ModelsEmitter._generate_model_file logs the exception and re-raises it.) *)
+Record io_result := { io_ops : list (stage * fs_op); io_hit : option stage }.
 Fixpoint io_plan (name : str) (c : config) (s : fs) (pl : list (stage * fs_op)) : io_result :=
   match pl with
-  | [] => {| io_ops := []; io_hit := None; io_swallowed := false |}
+  | [] => {| io_ops := []; io_hit := None |}
   | (st, op) :: r =>
       match io_cut name s op with
-      | Some part =>
-          if swallows st op
-          then {| io_ops := skipn 2 r; io_hit := None; io_swallowed := true |}   (* Remove tmp; Write py skipped *)
-          else {| io_ops := map (pair st) (part ++ error_log_ops c st); io_hit := Some st; io_swallowed := false |}
+      | Some part => {| io_ops := map (pair st) (part ++ error_log_ops c st); io_hit := Some st |}
       | None => let x := io_plan name c (apply_op s op) r in
-                {| io_ops := (st, op) :: io_ops x; io_hit := io_hit x; io_swallowed := io_swallowed x |}
+                {| io_ops := (st, op) :: io_ops x; io_hit := io_hit x |}
       end
   end.
 Definition io_run (c : config) (name : str) (s : fs) : io_result :=
   io_plan name c s (plan_main c (diff_mode c s) None).
 Definition plan_io (c : config) (name : str) (s : fs) : list (stage * fs_op) :=
-  io_ops (io_run c name s) ++ (if diff_mode c s then [(Final, Rmtree (tmp c))] else []).
+  io_ops (io_run c name s)
+  ++ (if diff_mode c s && valid_pkgs c then [(Final, Rmtree (tmp c))] else []).
 Inductive outcome_io := Returned (o : outcome) | FailIO (st : stage).
 Definition generate_io (c : config) (name : str) (s : fs) : fs * outcome_io :=
   (exec s (plan_io c name s),
    match io_hit (io_run c name s) with
    | Some st => FailIO st
-   | None => Returned (if diff_mode c s && has_diff c (exec s (io_ops (io_run c name s))) then DiffFound else Ok)
+   | None => Returned (if negb (valid_pkgs c) then Invalid
+                       else if diff_mode c s && has_diff c (exec s (io_ops (io_run c name s))) then DiffFound else Ok)
    end).
 (* some operation was refused by the OS during the run *)
 Definition io_refused (c : config) (name : str) (s : fs) : bool :=
-  match io_hit (io_run c name s) with Some _ => true | None => io_swallowed (io_run c name s) end.
-(* F10c: the refusal hits the write of a model module and is swallowed *)
-Definition guard_F10c (c : config) (name : str) (s : fs) : bool := negb (io_swallowed (io_run c name s)).
+  match io_hit (io_run c name s) with Some _ => true | None => false end.
 
 (* ---------- the property ---------- *)
 Definition restrict_root (c : config) (s : fs) : fs := filter (fun kv => under (root c) (fst kv)) s.
@@ -338,16 +339,13 @@ Definition allowed (c : config) (p : path) : bool :=
   || existsb (fun a => path_eqb p a || path_eqb p (a ++ [s_init]))
              (ancestors c (out_pkg c) ++ ancestors c (core_fqn c)).
 
-(* ---------- guards ---------- *)
-(* F10a: a package path with an empty component ("." , "a..b", "") names no package; pkg_to_path
-   silently drops the component, and "." is the project root itself *)
+(* ---------- assumptions on the environment (no findings left: F10a, F10b, F10c are fixed) ---------- *)
+(* consequence of [valid_pkgs]: no empty component, so pkg_to_path drops nothing *)
 Definition wf_pkg (c : config) : bool :=
   forallb nonempty (out_pkg c) && negb (path_eqb (out_pkg c) [])
   && forallb nonempty (core_fqn c) && negb (path_eqb (core_fqn c) []).
-(* the temporary directory and the project root are disjoint (assumption on the environment) *)
+(* the temporary directory and the project root are disjoint *)
 Definition wf_tmp (c : config) : bool := negb (under (root c) (tmp c)) && negb (under (tmp c) (root c)).
-(* the emitters' error logs (system temp dir) are not below the project root (assumption on the environment) *)
+(* the emitters' error logs (system temp dir) are not below the project root *)
 Definition wf_log (c : config) : bool :=
   negb (under (root c) (sys_tmp c ++ [s_error_log])) && negb (under (root c) (sys_tmp c ++ [s_mocks_error_log])).
-(* F10b: post-processing runs ruff from the current directory without --no-cache *)
-Definition guard_F10b (c : config) : bool := negb (post c) || negb (under (root c) (cwd c ++ [s_ruff_cache])).
